@@ -157,6 +157,9 @@ def NsfState.elNeutron (st : NsfState α) (z : Nat) : NRec α := st.getRec (st.e
 def NsfState.isoNeutron (st : NsfState α) (z a : Nat) : NRec α := st.getRec (st.isoId z a)
 def NsfState.setRec (st : NsfState α) (id : Nat) (r : NRec α) : NsfState α :=
   { st with recs := (id, r) :: st.recs }
+/-- in-place mutation of one `Neutron` object -/
+def NsfState.modify (st : NsfState α) (id : Nat) (f : NRec α → NRec α) : NsfState α :=
+  st.setRec id (f (st.getRec id))
 
 /-- `-absorption/(2000*ABSORPTION_WAVELENGTH)` -/
 def bcImag (lam0 absorption : α) : α := -absorption / (((2000 : Nat) : α) * lam0)
@@ -192,20 +195,17 @@ def fourPi100 : α := ((4 : Nat) : α) * Transc.pi / ((100 : Nat) : α)
 /-- the two gap fills (nsf.py 609-618): Xe total = coherent + incoherent,
     Eu-151 b_c = sqrt(coherent/_4PI_100) -/
 def gapFill (st : NsfState α) : NsfState α :=
-  let xe := st.elId 54
-  let rx := st.getRec xe
-  let st := st.setRec xe { rx with total := match rx.coherent, rx.incoherent with
-                                              | some c, some i => some (c + i)
-                                              | _, _ => none }
-  let eu := st.isoId 63 151
-  let re := st.getRec eu
-  st.setRec eu { re with b_c := re.coherent.map fun c => Transc.sqrt (c / fourPi100) }
+  let st := st.modify (st.elId 54) fun rx =>
+    { rx with total := match rx.coherent, rx.incoherent with
+                       | some c, some i => some (c + i)
+                       | _, _ => none }
+  st.modify (st.isoId 63 151) fun re =>
+    { re with b_c := re.coherent.map fun c => Transc.sqrt (c / fourPi100) }
 
 /-- one line of `nsftableI` (nsf.py 620-636) -/
 def nsfIStep (st : NsfState α) (r : NsfIRow) : NsfState α :=
-  let id := if r.a = 0 then st.elId r.z else st.isoId r.z r.a
-  let rc := st.getRec id
-  st.setRec id { rc with b_c_i := r.b_c_i.val, bp_i := r.bp_i.val, bm_i := r.bm_i.val }
+  st.modify (if r.a = 0 then st.elId r.z else st.isoId r.z r.a) fun rc =>
+    { rc with b_c_i := r.b_c_i.val, bp_i := r.bp_i.val, bm_i := r.bm_i.val }
 
 /-- `neutron_wavelength(E)` (nsf.py 197-221): `sqrt(ENERGY_FACTOR/E)`, E in meV -/
 def neutronWavelength (ef e : α) : α := Transc.sqrt (ef / e)
@@ -223,22 +223,28 @@ def edStep (zOf : Nat → Option Nat) (ef : α) (st : NsfState α) (t : EDTable)
   match zOf t.sym with
   | none => st
   | some z =>
-    let id := if t.a = 0 then st.elId z else st.isoId z t.a
-    st.setRec id { st.getRec id with table := some (edTable ef t.rows) }
+    st.modify (if t.a = 0 then st.elId z else st.isoId z t.a) fun rc =>
+      { rc with table := some (edTable ef t.rows) }
+
+/-- complex × real as CPython / numpy compute it (the real number is promoted to `x+0j`);
+    it matters only when a part is NaN -/
+def cxMulReal (c : Cx α) (x : α) : Cx α := (c.1 * x - c.2 * 0, c.1 * 0 + c.2 * x)
+
+/-- complex / real (Smith's algorithm with a zero imaginary divisor) -/
+def cxDivReal (c : Cx α) (x : α) : Cx α := ((c.1 + c.2 * 0) / x, (c.2 - c.1 * 0) / x)
+
+/-- the mixed table of natural Lu: `(bc_175*ab175 + bc_176*ab176)/100` -/
+def luTable (ab175 ab176 : α) (bcc175 : Option α × α) (tbl : List (α × Cx α)) : List (α × Cx α) :=
+  let c175 : Cx α := cxMulReal (bcc175.1.getD ((0 : α) / (0 : α)), bcc175.2) ab175
+  tbl.map fun p =>
+    let c176 := cxMulReal p.2 ab176
+    (p.1, cxDivReal (c175.1 + c176.1, c175.2 + c176.2) ((100 : Nat) : α))
 
 /-- natural Lu mixed from Lu-175 (constant) and Lu-176 (table) by abundance (nsf.py 529-535) -/
 def luMix (ab175 ab176 : α) (st : NsfState α) : NsfState α :=
-  let r175 := st.isoNeutron 71 175
-  let r176 := st.isoNeutron 71 176
-  match r175.bcc, r176.table with
-  | some (re175, im175), some tbl =>
-    let nan : α := (0 : α) / (0 : α)
-    let re175 := re175.getD nan
-    let nat := tbl.map fun p =>
-      (p.1, ((re175 * ab175 + p.2.1 * ab176) / ((100 : Nat) : α),
-             (im175 * ab175 + p.2.2 * ab176) / ((100 : Nat) : α)))
-    let id := st.elId 71
-    st.setRec id { st.getRec id with table := some nat }
+  match (st.isoNeutron 71 175).bcc, (st.isoNeutron 71 176).table with
+  | some bcc175, some tbl =>
+    st.modify (st.elId 71) fun rc => { rc with table := some (luTable ab175 ab176 bcc175 tbl) }
   | _, _ => st
 
 /-- what `nsf.init` needs from the tables loaded before it -/
